@@ -22,6 +22,7 @@ mod lexprops;
 mod pipeline;
 mod textgen;
 mod textprops;
+mod typeprops;
 
 use engine::*;
 use serde_json::Value;
@@ -31,6 +32,11 @@ fn run_property(id: &str, ctx: &RunCtx) -> bool {
         "C01" => textprops::run(textprops::P::C01, ctx),
         "C02" => textprops::run(textprops::P::C02, ctx),
         "C14" => textprops::run(textprops::P::C14, ctx),
+        "C12" => {
+            textprops::run(textprops::P::C12, ctx);
+            semprops::run_c12_semantic(ctx);
+            fsprops::run_c12_includes(ctx);
+        }
         "C03" => pipeline::run_c03(ctx),
         "C06" => semprops::run_c06(ctx),
         "C07" => semprops::run_c07(ctx),
@@ -39,6 +45,9 @@ fn run_property(id: &str, ctx: &RunCtx) -> bool {
         "C04" => synprops::run_c04(ctx),
         "C05" => synprops::run_c05(ctx),
         "C16" => synprops::run_c16(ctx),
+        "C08" => typeprops::run_c08(ctx),
+        "C09" => typeprops::run_c09(ctx),
+        "C10" => typeprops::run_c10(ctx),
         "C11" => c11::run(ctx),
         "C15" => lexprops::run_c15(ctx),
         "C19" => c19::run(ctx),
@@ -52,14 +61,19 @@ fn run_property(id: &str, ctx: &RunCtx) -> bool {
 fn replay_input(id: &str, v: &Value) -> Result<Vec<Failure>, String> {
     let source = v["input"]["source"].as_str();
     match id {
-        "C01" | "C02" | "C14" => {
+        "C01" | "C02" | "C14" | "C12" => {
             let p = match id {
                 "C01" => textprops::P::C01,
                 "C02" => textprops::P::C02,
+                "C12" => textprops::P::C12,
                 _ => textprops::P::C14,
             };
             let s = source.ok_or("replay file has no input.source")?;
-            Ok(textprops::replay_text(p, s))
+            let mut out = textprops::replay_text(p, s);
+            if id == "C12" {
+                semprops::check_c12_semantic(s, &mut out);
+            }
+            Ok(out)
         }
         "C19" => {
             let ops = c19::ops_from_json(&v["input"]["ops"]).ok_or("replay file has no valid input.ops")?;
@@ -77,6 +91,9 @@ fn replay_input(id: &str, v: &Value) -> Result<Vec<Failure>, String> {
             }
         }
         "C17" => semprops::replay_c17(v),
+        "C08" => typeprops::replay_c08(v),
+        "C09" => typeprops::replay_c09(v),
+        "C10" => typeprops::replay_c10(v),
         "C04" => synprops::replay_c04(v),
         "C05" => synprops::replay_c05(v),
         "C16" => synprops::replay_c16(v),
